@@ -72,8 +72,29 @@ pub fn main(rest: &[String]) -> i32 {
             if s["newgame"].as_bool().unwrap_or(false) {
                 ps.reset();
             }
-            let depth = s["depth"].as_u64().map(|d| d as u8);
-            let stopk = s["stopk"].as_i64().unwrap_or(0);
+            let mut depth = s["depth"].as_u64().map(|d| d as u8);
+            let mut stopk = s["stopk"].as_i64().unwrap_or(0);
+            if stopk < 0 {
+                // automatic: the smallest depth whose search (on fresh tables) reaches a poll inside the tree, and the
+                // |stopk|-th poll from the end of that search; the recorded run starts from fresh tables as well
+                let mut d = 1u8;
+                let polls = loop {
+                    let mut fresh = PersistentState::new(hash);
+                    verif::set_stop_at_poll(0);
+                    let mut quiet = Collect { infos: Vec::new() };
+                    let (mut ts, _control) = TimeStrategy::new(&game, &TimeControl::Infinite, &options);
+                    let restr = SearchRestrictions { depth: Some(d) };
+                    let _ = search::search(&game, &mut fresh, &mut ts, &restr, &options, &mut quiet);
+                    let (_, max_nodes) = verif::nodes_observed();
+                    if max_nodes >= 10000 || d >= 14 {
+                        break verif::polls() as i64;
+                    }
+                    d += 1;
+                };
+                depth = Some(d);
+                stopk = (polls + stopk + 1).max(1);
+                ps = PersistentState::new(hash);
+            }
             let record = s["record"].as_bool().unwrap_or(false);
             let mut rep = Collect { infos: Vec::new() };
             verif::set_stop_at_poll(stopk);
